@@ -78,6 +78,8 @@ def run(ctx, tier):
     results += c03.deregister_only_own(ctx, rule='C04.deregister-only-own')
     import c10
     results += c10.release_per_entry(ctx, rule='C04.release-per-entry')
+    import c02
+    results += c02.alternate_rule(ctx, rule='C04.alternate')
     return dict(
         results=results, stats=dict(ctx.stats),
         explanation=(
